@@ -741,7 +741,12 @@ def stream_entry(res: Result, tier: str, driver_ok: bool, ref: list[tuple[str, s
         printed = c["printed"]
         obs = {"out": c["out"], "printed": printed[:8], "opens": world.opens(), "reads": [(t, len(b)) for t, b in world.reads()], "prompts": len(c["prompts"]), "shown": [s[0] for s in c["shown"]]}
         if c["out"] != {"ok": False} or len(c["prompts"]) != 1:
-            res.violation("ksrsigner entry point did not stop at its confirmation prompt as expected (harness expectation)", case, key="entry:flow", observed=obs)
+            if "error" in c["out"] and not c["prompts"]:
+                # the KSR exists only behind the names the loader uses (one open, one read): an error before the prompt on a
+                # loadable KSR means the file was reached for again by another route - not "the bytes actually used"
+                res.violation("ksrsigner: a loadable KSR was accessed again outside its single read before the prompt (the run ended in an error)", case, key="entry:second-access", observed=obs)
+            else:
+                res.violation("ksrsigner entry point did not stop at its confirmation prompt as expected (harness expectation)", case, key="entry:flow", observed=obs)
             continue
         hexl = [x for x in printed if x.startswith("SHA-256 HEX:")]
         wordl = [x for x in printed if x.startswith("SHA-256 WORDS:")]
